@@ -49,7 +49,7 @@ def _real_pool(rep, tier, rng):
                 # whitespace-only variants of a behaviour that is in the same run (a result must depend on the exact text only)
                 beh[f"near_{i}"] = [near_miss(B[n][0], rng)] + list(B[n][1:])
                 beh[f"near2_{i}"] = [B[n][0], near_miss(B[n][0], rng)]
-            if i % 4 == 0:
+            if i % 8 == 0:
                 # repeated part texts (A-A, A-B-A) and both orders of two distinct parts: one tree PER PART, in the order given
                 other = B[pick[(i + 1) % len(pick)]][0]
                 beh[f"dup_{i}"] = [B[n][0], B[n][0]]
